@@ -25,7 +25,7 @@ ASSUMPTIONS = [
     "shooting growth bounded by exp(13.8) by construction",
 ]
 TOLERANCES = {
-    "conservation": "(1e-12 + 256*eps*G) * max|field|",
+    "conservation": "(1e-12 + 4096*eps*G) * max|field|",
     "halo_equivalence": "max(1e-10, rounding model) * max|field| (enlarged-domain spacing differs in the last ulp)",
 }
 BUDGET = {"quick": dict(examples=400, shards=1), "thorough": dict(examples=2500, shards=16)}
@@ -100,6 +100,7 @@ def check_case(case):
     logG = tol.log_growth(z, prof, kx, ky)
     rel = tol.rel_tol(logG)
     qbar = float(q0.mean())
+    fs0, cs0 = tol.natural_scales(q0, z, prof, case["bg"])
     out.label(f"prof={case['prof']['kind']}", f"halo={case['halo']['kind']}", f"levels={len(lv)}")
 
     # ---- (a) conservation on the bare periodic domain
@@ -119,7 +120,7 @@ def check_case(case):
             out.bad(f"level {l}: footprint weights sum to {s!r}, not 1")
         got = float(conc[k].mean())
         want = case["bg"] - qbar * Rtrap[l]
-        cscale = max(tol.maxabs(conc[k]), abs(case["bg"]), abs(qbar) * Rtrap[l])
+        cscale = max(tol.maxabs(conc[k]), abs(case["bg"]), abs(qbar) * Rtrap[l], cs0)
         if not abs(got - want) <= rel * cscale:
             # an equal-or-better quadrature of the exact resistance is not a violation
             Rex = exact_resistance(case["prof"], z, prof, l)
@@ -168,8 +169,8 @@ def check_case(case):
             fp = fp[:, cy : cy + ny, cx : cx + nx]
             relh = max(rel, 1e-10)
             e = max(
-                tol.maxabs(fp - fh) / max(tol.maxabs(fp), 1e-300),
-                tol.maxabs(cp - ch) / max(tol.maxabs(cp), abs(case["bg"]), 1e-300),
+                tol.maxabs(fp - fh) / max(tol.maxabs(fp), 1e-300 if fpm else fs0, 1e-300),
+                tol.maxabs(cp - ch) / max(tol.maxabs(cp), abs(case["bg"]), 1e-300 if fpm else cs0, 1e-300),
             )
             best = e if best is None else min(best, e)
         if not best <= max(rel, 1e-10):
